@@ -2,6 +2,7 @@
 import json
 
 import common as C
+import geo
 import structural as S
 import tess as T
 
@@ -32,7 +33,7 @@ def run(res, replay=None):
         a, w = T.norm_box(case["dim"], case["anchor"], case["width"])
         res.count(f"{case['group']}:{case['dim']}D:{'periodic' if case['periodic'] else 'reflective'}:{'mask' if case.get('mask') is not None else 'full'}")
         if o is None or "panic" in o:
-            res.violation("panic:" + ("no-suitable-vertex" if "No suitable" in str((o or {}).get("panic")) else "other"), f"construction panicked: {(o or {}).get('panic')}", ctx)
+            res.violation("panic:" + geo.panic_signature(o, case), f"construction panicked: {(o or {}).get('panic')}", ctx)
             continue
         n = len(case["gens"])
         active = [case.get("mask") is None or case["mask"][i] for i in range(n)]
